@@ -7,6 +7,7 @@ import Driver.Key
 import Driver.Merge
 import Driver.Kdbx4
 import Driver.Xml
+import Driver.Legacy
 /-!
 `kpdriver`: reads one JSON case per line on stdin, runs the Lean model (and, where it differs, the reference
 specification) on the case's inputs and prints one JSON line per case:
@@ -26,6 +27,8 @@ def dispatch (op : String) (j : Json) : R Json :=
   | "merge" => opMerge j
   | "kdbx4read" => opKdbx4Read j
   | "xml" => opXml j
+  | "kdbx3read" => opKdbx3Read j
+  | "kdbread" => opKdbRead j
   | "selftest" => opSelfTest j
   | _ => throw s!"unknown op {op}"
 
